@@ -5,7 +5,7 @@
     another or differ in case are simply different strings), and therefore every branch and data
     ocode produces the same bytes. *)
 From Coq Require Import List ZArith String Bool.
-From Gosk Require Import Base.Bytes Model.Ast Model.Eval Model.Asm Lemmas.RenameLemmas.
+From Gosk Require Import Base.Bytes Model.Ast Model.Eval Model.Asm Lemmas.RenameLemmas Lemmas.CodegenLift.
 Import ListNotations.
 Local Open Scope Z_scope.
 
@@ -26,3 +26,11 @@ Print Assumptions C15_ocode_rename.
 Example C15_family : let st := [("a", 1); ("aa", 2); ("a_", 3); ("A", 4)]%string in
   (lookup "a" st, lookup "aa" st, lookup "a_" st, lookup "A" st)%string = (Some 1, Some 2, Some 3, Some 4).
 Proof. reflexivity. Qed.
+
+(** whole programs: the bytes codegen emits for any list of non-operand ocodes are the same after a renaming that is
+    injective on the names in use has been applied to the symbol table and to every branch target *)
+Theorem C15_codegen_rename : forall E m st dol f, (forall l k, In k (map fst st) -> f k = f l -> k = l) ->
+  forall os acc d, forallb no_instr os = true ->
+  codegen E m (rename_sym f st) dol acc d (map (rename_ocode f) os) = codegen E m st dol acc d os.
+Proof. exact codegen_rename. Qed.
+Print Assumptions C15_codegen_rename.
